@@ -50,20 +50,27 @@ class SDet:
             self.emitted = index
 
 
-def build(ndet, incs, log):
+STREAMS = ["primary", "second"]
+
+
+def build(ndet, incs, log, off=0, nstreams=1):
     def factory(lab):
         import bluesky.plan_stubs as bps
 
         dets = [SDet(f"det{i}", lab) for i in range(ndet)]
+        for d in dets:
+            d.written = d.emitted = off  # frames already in the file before this run
 
         def plan():
             yield from bps.open_run()
-            yield from bps.declare_stream(*dets, name="primary", collect=True)
+            for sname in STREAMS[:nstreams]:
+                yield from bps.declare_stream(*dets, name=sname, collect=True)
             for c, row in enumerate(incs):
                 for d, inc in zip(dets, row):
                     d.written += inc
-                log.append(("collect", c, [d.written for d in dets]))
-                yield from bps.collect(*dets, name="primary")
+                sname = STREAMS[c % nstreams]
+                log.append(("collect", c, [d.written for d in dets], sname))
+                yield from bps.collect(*dets, name=sname)
             yield from bps.close_run()
 
         return plan(), {d.name: d for d in dets}
@@ -71,7 +78,7 @@ def build(ndet, incs, log):
     return factory
 
 
-def oracle(obs, ndet, log):
+def oracle(obs, ndet, log, off=0):
     tags = []
     call = obs.calls[0]
     if call["outcome"] != "ret":
@@ -79,59 +86,84 @@ def oracle(obs, ndet, log):
     if obs.state != "idle":
         return ["engine-not-idle"]
     docs = obs.docs
-    per_key = {}
     sres_key = {}
+    desc_stream = {d["uid"]: d["name"] for n, d in docs if n == "descriptor"}
+    per = {}  # (stream, data key) -> datums in emission order
+    allkey = {}
     for n, d in docs:
         if n == "stream_resource":
             sres_key[d["uid"]] = d["data_key"]
         elif n == "stream_datum":
-            per_key.setdefault(sres_key.get(d["stream_resource"]), []).append(d)
-    desc = [d for n, d in docs if n == "descriptor"]
-    for key, sds in per_key.items():
-        if key is None:
-            tags.append("stream-datum-without-stream-resource")
-            continue
-        nxt = 0
+            key = sres_key.get(d["stream_resource"])
+            if key is None:
+                tags.append("stream-datum-without-stream-resource")
+                continue
+            if d["descriptor"] not in desc_stream:
+                tags.append("stream-datum-not-attached-to-a-descriptor-of-the-run")
+                continue
+            per.setdefault((desc_stream[d["descriptor"]], key), []).append(d)
+            allkey.setdefault(key, []).append(d)
+    # indices: per data key contiguous from the first frame of the run (whatever stream they went to)
+    for key, sds in allkey.items():
+        nxt = off
         for d in sds:
             a, b = d["indices"]["start"], d["indices"]["stop"]
-            s, t = d["seq_nums"]["start"], d["seq_nums"]["stop"]
             if a != nxt:
-                tags.append("index-ranges-are-not-contiguous-from-0")
+                tags.append("index-ranges-are-not-contiguous-from-the-first-frame")
             if b <= a:
                 tags.append("empty-or-reversed-stream-datum")
-            if (s, t) != (a + 1, b + 1):
-                tags.append("seq_nums-do-not-line-up-with-indices-starting-at-1")
-            if not desc or d["descriptor"] != desc[0]["uid"]:
-                tags.append("stream-datum-not-attached-to-the-stream's-descriptor")
             nxt = b
-    finals = {k: v[-1]["indices"]["stop"] for k, v in per_key.items() if k}
-    want_final = min(log[-1][2]) if log else 0
-    if log and want_final > 0:
+    # seq_nums: per stream contiguous from 1, as wide as the indices
+    frames = {}
+    for (stream, key), sds in per.items():
+        nxt = 1
+        for d in sds:
+            a, b = d["indices"]["start"], d["indices"]["stop"]
+            s_, t_ = d["seq_nums"]["start"], d["seq_nums"]["stop"]
+            if s_ != nxt:
+                tags.append("seq_nums-are-not-contiguous-from-1-within-the-stream")
+            if t_ - s_ != b - a:
+                tags.append("seq_num-range-is-not-as-wide-as-the-index-range")
+            nxt = t_
+        frames.setdefault(stream, set()).add(sum(d["indices"]["stop"] - d["indices"]["start"] for d in sds))
+    finals = {k: v[-1]["indices"]["stop"] for k, v in allkey.items()}
+    want_final = min(log[-1][2]) if log else off
+    if log and want_final > off:
         goal("frames-collected")
         if len(finals) != ndet or any(f != want_final for f in finals.values()):
             tags.append("detectors-collected-together-did-not-advance-to-the-common-minimum-index")
-    if ndet == 2 and log and any(w[0] != w[1] for _, _, w in log):
+    if ndet == 2 and log and any(w[0] != w[1] for _, _, w, _ in log):
         goal("detectors-out-of-step")
+    if off:
+        goal("index-does-not-start-at-0")
+    if len(frames) >= 2:
+        goal("two-streams")
     stop = next((d for n, d in docs if n == "stop"), None)
-    ne = (stop or {}).get("num_events", {}).get("primary", 0)
-    if ne != want_final:
-        tags.append("num_events-differs-from-the-frames-declared")
+    for stream in STREAMS:
+        ne = (stop or {}).get("num_events", {}).get(stream, 0)
+        want = frames.get(stream, {0})
+        if len(want) != 1:
+            tags.append("detectors-of-one-stream-declared-different-numbers-of-frames")
+        elif ne != next(iter(want)):
+            tags.append("num_events-differs-from-the-frames-declared")
     return sorted(set(tags))
 
 
 def make(P):
     C = P["C"]
 
-    def h(nd: int, nc: int, i1: int, i2: int, i3: int, i4: int, i5: int, i6: int, i7: int, i8: int) -> str:
+    def h(nd: int, nc: int, i1: int, i2: int, i3: int, i4: int, i5: int, i6: int, i7: int, i8: int, off: int, ns: int) -> str:
         ndet = fork_int(nd, 1, 2)
         ncol = fork_int(nc, 1, C)
+        o = fork_int(off, 0, P["omax"])
+        nst = fork_int(ns, 1, 2)
         flat = [fork_int(x, 0, P["imax"]) for x in [i1, i2, i3, i4, i5, i6, i7, i8][: ncol * ndet]]
         only_shard(ndet + 2 * ncol + 8 * flat[0] + 32 * flat[1] if len(flat) > 1 else ndet + 2 * ncol + 8 * flat[0], P)
         incs = [flat[c * ndet:(c + 1) * ndet] for c in range(ncol)]
         with notrace():
             log = []
-            obs = sweep.run_case(build(ndet, incs, log), (), "resume", followup=False)
-            return ";".join(oracle(obs, ndet, log))
+            obs = sweep.run_case(build(ndet, incs, log, o, nst), (), "resume", followup=False)
+            return ";".join(oracle(obs, ndet, log, o))
 
     return h
 
@@ -203,10 +235,10 @@ def _fns():
     return [RunBundler.collect, RunBundler._pack_external_assets, RunBundler._pack_seq_nums_into_stream_datum, RunBundler.declare_stream, RunBundler.close_run]
 
 
-register(Harness("c45_collect", "C45", make, {"quick": dict(C=3, imax=2, shards=16, budget_s=300, per_path_s=30), "thorough": dict(C=4, imax=3, shards=64, budget_s=3000, per_path_s=30)},
-                 goals=["frames-collected", "detectors-out-of-step"], functions=_fns, mode="schedule",
-                 symbolic="1 or 2 stream-asset-writing detectors; 1..C collects; frames written by each detector before each collect in [0, imax]",
-                 out_of_bound=OUT + "; more than C collects or 2 detectors; several streams over the same detectors; interruptions between collects; detectors that also produce events", stubs=STUBS,
+register(Harness("c45_collect", "C45", make, {"quick": dict(C=3, imax=2, omax=1, shards=16, budget_s=300, per_path_s=30), "thorough": dict(C=4, imax=3, omax=2, shards=64, budget_s=3000, per_path_s=30)},
+                 goals=["frames-collected", "detectors-out-of-step", "index-does-not-start-at-0", "two-streams"], functions=_fns, mode="schedule",
+                 symbolic="1 or 2 stream-asset-writing detectors; 1..C collects; frames written by each detector before each collect in [0, imax]; frames already written before the run in [0, omax]; one stream, or two declared streams collected alternately",
+                 out_of_bound=OUT + "; more than C collects, 2 detectors or 2 streams; interruptions between collects; detectors that also produce events", stubs=STUBS,
                  require_exhaustive=True))
 register(Harness("c45_step", "C45", make_step, {"quick": dict(shards=1, budget_s=120, per_path_s=30), "thorough": dict(shards=1, budget_s=600, per_path_s=60)},
                  goals=["packed", "unequal-widths-rejected"], functions=_fns, mode="traced", opaque_text=True,
